@@ -94,6 +94,44 @@ def premises(db, rep, cfg):
                 'is no longer required for every element on every accepting path of StarkConfig::validate: the work it bounds '
                 'is driven by an unvalidated proof field'),
                db.fns[gs[0].fn].loc(gs[0].line) if gs else db.fns[common.CONFIG_VALIDATE].loc(), cfg)
+    # a per-element bound covers the vector only if the walk does: a sub-slice `v[a..b]` of a configuration vector with a
+    # closed end must end at the vector's (validated) length -- `b` is len(v), or a value an equality guard ties to
+    # len(v), and is not reduced by a subtraction. (Expected instances on the pinned tree: 0 -- validate indexes by
+    # position; the rule exists for rewrites into slice/zip pipelines, where `zip` would hide a short slice.)
+    n_sub = 0
+    for p in sorted(db.reach([common.CONFIG_VALIDATE])):
+        fn = db.fns.get(p)
+        if fn is None or not fn.has_mir or not p.startswith(('swiftness_fri::config', 'swiftness_stark::config', 'swiftness_air::trace::config',
+                                                             'swiftness_commitment::', 'swiftness_pow::config')):
+            continue
+        fl = None
+        for bi, t in fn.calls():
+            if t['f'].get('name') not in ('index', 'index_mut', 'get', 'get_mut') or len(t.get('args', [])) < 2:
+                continue
+            full = t['f'].get('full', '') + ' '.join(t['f'].get('targs', []))
+            if not re.search(r'ops::range::(Range|RangeTo|RangeInclusive|RangeToInclusive)<', full):
+                continue
+            fl = fl or dataflow.Flow(db, fn)
+            vec = sorted(x for x in fl.operand_leaves(t['args'][0]) if re.fullmatch(r'a\d+(\.[A-Za-z0-9_]+)+', x))
+            if not vec:
+                continue
+            n_sub += 1
+            agg = fl._agg_of_operand(t['args'][1]) or {}
+            end = set(agg.get('end', set()))
+            own = dataflow.own_guards(db, fn, fl)
+            tied = set()
+            for v in vec:
+                tied.add(f'len({v})')
+                for g in own:
+                    if g.rel == 'EQ' and (f'len({v})' in g.lhs or f'len({v})' in g.rhs):
+                        tied |= {x for x in (g.lhs | g.rhs) if dataflow.is_path_leaf(x)}
+            ok = bool(end & tied) and 'op:sub' not in end
+            rep.ob('C17.premise', f'subslice|{p}|{vec[0]}|{n_sub}', ok,
+                   f'{p.split("::")[-1]}: sub-slice of {vec[0]} with end {sorted(end)[:6]} ' +
+                   ('ends at the validated length' if ok else
+                    'is not known to reach the end of the vector: per-element bounds checked over it (and a zip with it) leave '
+                    'the remaining elements unvalidated'), fn.loc(t['line']), cfg)
+    rep.note('closed_subslices_of_config_vectors', n_sub)
     # counted on the pinned tree: pow-bits, blow-up, queries, fri layers, fri step, last-layer bound, fri input size
     rep.floor('C17.premise', 'upper-bound conjuncts of the configuration statement', n, 5)
 
